@@ -31,9 +31,21 @@ def install():
     F = O.FormatStashingValue
     of, os_, or_ = F.__format__, F.__str__, F.__repr__
 
+    def has_sym(v, depth=0):
+        if isinstance(v, CrossHairValue):
+            return True
+        if depth > 6:
+            return False
+        if isinstance(v, (list, tuple, set, frozenset)):
+            return any(has_sym(x, depth + 1) for x in v)
+        if isinstance(v, dict):
+            return any(has_sym(k, depth + 1) or has_sym(x, depth + 1) for k, x in v.items())
+        return False
+
     def is_sym(v):
+        # a symbolic scalar, or a plain container holding one (its repr would realise the leaves)
         with NoTracing():
-            return isinstance(v, CrossHairValue)
+            return has_sym(v)
 
     def fmt(self, spec):
         if OPAQUE[0] and is_sym(self.value):
